@@ -63,6 +63,12 @@ def succ_opt (d : Int) : Option Int := succ? d
 def pred_opt (d : Int) : Option Int := pred? d
 def with_year (d y : Int) : Option Int := withYear? d y
 
+/-- `date.checked_add_months(Months::new(1))` and `date.with_day(1)`, translated in exactly these shapes (rs2lean.py,
+[week extension]): the calendar model's `addOneMonth?` (day clamped to the length of the next month, `None` past
+`NaiveDate::MAX`) and `firstOfMonth` (the first of a month always exists) -/
+def checked_add_months_one (d : Int) : Option Int := addOneMonth? d
+def with_day_one (d : Int) : Option Int := some (firstOfMonth d)
+
 end Chrono
 
 end OH.Model.RustChrono
